@@ -557,6 +557,10 @@ package gmars
 //@   ensures [C13] !(0 <= wi && wi < s.warriorCount) ==> result != nil && memSame(s)
 //@   ensures [C13] 0 <= wi && wi < s.warriorCount && old(s.warriors[wi].state) == WarriorAlive ==> result != nil && memSame(s)
 //@   ensures [C13] result == nil ==> s.warriors[wi].state == WarriorAlive && s.warriors[wi].pq.length == 1
+// living-count discipline (C04): +1 exactly when one warrior becomes alive, every other warrior keeps its state
+//@   ensures [C04] old(s.warriorLivingCount) < 9223372036854775807 ==> s.warriorLivingCount == old(s.warriorLivingCount) + ite(result == nil, 1, 0)
+//@   ensures [C04] forall j :: 0 <= j && j < s.warriorCount && (result != nil || j != wi) ==> s.warriors[j].state == old(s.warriors[j].state)
+//@   ensures [C04] result == nil ==> old(s.warriors[wi].state) != WarriorAlive
 //@   ensures [C02] result == nil ==> s.warriors[wi].pq.size == s.maxProcs
 // loading wraps modulo the core size: the code lands at (startOffset + i) % m (C12: any offset congruent modulo the core size gives the same core)
 //@   ensures [C12] result == nil && len(s.warriors[wi].data.Code) <= s.m && startOffset + len(s.warriors[wi].data.Code) < 18446744073709551616 ==> (forall i :: 0 <= i && i < len(s.warriors[wi].data.Code) ==> s.mem[(startOffset + i) % s.m] == s.warriors[wi].data.Code[i])
@@ -642,14 +646,17 @@ package gmars
 //@   ensures [C02][C13] old(cycleGuard(s)) ==> result == 0 && memSame(s) && s.cycleCount == old(s.cycleCount) && s.warriorLivingCount == old(s.warriorLivingCount)
 //@   ensures [C02] !old(cycleGuard(s)) ==> (s.cycleCount == old(s.cycleCount) + 1 && result == s.warriorLivingCount)
 //@      || (s.cycleCount == old(s.cycleCount) && s.warriorCount > 1 && result == 1 && s.warriorLivingCount == 1)
-//@   ensures [C15] s.wtermCount - old(s.wtermCount) == old(s.warriorLivingCount) - s.warriorLivingCount
+//@   ensures [C15][C04] s.wtermCount - old(s.wtermCount) == old(s.warriorLivingCount) - s.warriorLivingCount
+// living-count discipline (C04): the count drops by exactly the number of warriors that went from alive to dead; nobody becomes alive
+//@   ensures [C04] forall j :: 0 <= j && j < s.warriorCount ==> s.warriors[j].state == old(s.warriors[j].state) || (old(s.warriors[j].state) == WarriorAlive && s.warriors[j].state == WarriorDead)
 // every warrior that was alive at the start of a completed cycle ran exactly one task, the others none
 //@   ensures [C02] s.cycleCount == old(s.cycleCount) + 1 ==> (forall j :: 0 <= j && j < s.warriorCount ==> s.popW[j] == old(s.popW[j]) + ite(old(s.warriors[j].state) == WarriorAlive, 1, 0))
 //@   ensures [C02] forall j :: 0 <= j && j < s.warriorCount ==> s.popW[j] <= old(s.popW[j]) + ite(old(s.warriors[j].state) == WarriorAlive, 1, 0) && s.popW[j] >= old(s.popW[j])
 //@   loop 1
 //@     invariant simInv(s) && 0 <= i && i <= s.warriorCount
 //@     invariant s.warriorLivingCount <= old(s.warriorLivingCount) && s.warriorLivingCount >= old(s.warriorLivingCount) - i && old(s.warriorLivingCount) >= 1
-//@     invariant [C15] s.wtermCount - old(s.wtermCount) == old(s.warriorLivingCount) - s.warriorLivingCount
+//@     invariant [C15][C04] s.wtermCount - old(s.wtermCount) == old(s.warriorLivingCount) - s.warriorLivingCount
+//@     invariant [C04] forall j :: 0 <= j && j < s.warriorCount ==> s.warriors[j].state == old(s.warriors[j].state) || (old(s.warriors[j].state) == WarriorAlive && s.warriors[j].state == WarriorDead)
 //@     invariant [C02] forall j :: 0 <= j && j < i ==> s.popW[j] == old(s.popW[j]) + ite(old(s.warriors[j].state) == WarriorAlive, 1, 0)
 //@     invariant [C02] forall j :: i <= j && j < s.warriorCount ==> s.popW[j] == old(s.popW[j]) && s.warriors[j].state == old(s.warriors[j].state)
 //@     decreases s.warriorCount - i
@@ -1423,3 +1430,60 @@ package gmars
 //@     invariant forOK(f) && 0 - 1 <= rangeindex && rangeindex < len(f.forLineLabels)
 //@     invariant [C08] (forall k :: 0 <= k && k <= rangeindex ==> f.forLineLabels[k] != tok.val) && sent(f.tokens) == outer(sent(f.tokens))
 //@     decreases len(f.forLineLabels) - rangeindex
+
+// ---------------------------------------------------------------------------
+// staterecorder.go: the bundled listener (C15): last-operation fold of the report stream
+
+//@ extern iface:ReportingSimulator.CoreSize
+//@   modifies nothing
+//@   ensures result >= 3
+//@ extern iface:ReportingSimulator.GetWarrior
+//@   modifies nothing
+//@   ensures result != nil
+//@ extern iface:Warrior.Length
+//@   modifies nothing
+//@   ensures result >= 0
+
+//@ pure recInv(r *StateRecorder) = r != nil && r.sim != nil && r.coresize >= 1 && len(r.color) == r.coresize && len(r.state) == r.coresize
+//@      && arr(r.color) != nil && arr(r.state) != nil
+//@ pure recEmpty(r *StateRecorder) = forall a :: 0 <= a && a < r.coresize ==> r.state[a] == CoreEmpty && r.color[a] == 0 - 1
+//@ pure recSameExcept(r *StateRecorder, x int) = forall a :: 0 <= a && a < r.coresize && a != x ==> r.state[a] == old(r.state[a]) && r.color[a] == old(r.color[a])
+//@ pure kindOf(t int) = ite(t == WarriorTaskTerminate, CoreTerminated, ite(t == WarriorTaskPop, CoreExecuted, ite(t == WarriorWrite, CoreWritten,
+//@      ite(t == WarriorRead, CoreRead, ite(t == WarriorIncrement, CoreIncremented, CoreDecremented)))))
+
+//@ func NewStateRecorder
+//@   panics [C15]
+//@   requires sim != nil
+//@   modifies nothing
+//@   ensures [C15] fresh(result) && recInv(result) && recEmpty(result)
+//@   loop 1
+//@     invariant i <= coresize && len(color) == coresize && fresh(arr(color)) && off(color) == 0 && (forall a :: 0 <= a && a < i ==> color[a] == 0 - 1)
+//@     decreases coresize - i
+
+//@ func (*StateRecorder).GetMemState
+//@   panics [C15]
+//@   requires recInv(r) && a < r.coresize
+//@   modifies nothing
+//@   ensures [C15] result.0 == r.state[a] && result.1 == r.color[a]
+
+//@ func (*StateRecorder).reset
+//@   panics [C15]
+//@   requires recInv(r)
+//@   modifies r.color[*], r.state[*]
+//@   ensures [C15] recInv(r) && recEmpty(r)
+//@   loop 1
+//@     invariant i <= r.coresize && (forall a :: 0 <= a && a < i ==> r.state[a] == CoreEmpty && r.color[a] == 0 - 1)
+//@     decreases r.coresize - i
+
+//@ func (*StateRecorder).Report
+//@   panics [C15]
+//@   requires recInv(r) && (report.Type >= WarriorSpawn ==> report.Address < r.coresize)
+//@   modifies r.color[*], r.state[*]
+//@   ensures [C15] recInv(r)
+// every address shows the kind and owner of the last operation that touched it; a reset empties everything
+//@   ensures [C15] report.Type == SimReset ==> recEmpty(r)
+//@   ensures [C15] report.Type == WarriorTaskTerminate || report.Type == WarriorTaskPop || report.Type == WarriorWrite || report.Type == WarriorIncrement || report.Type == WarriorDecrement
+//@      || (report.Type == WarriorRead && r.recordReads) ==> r.state[report.Address] == kindOf(report.Type) && r.color[report.Address] == report.WarriorIndex && recSameExcept(r, report.Address)
+//@   ensures [C15] report.Type == CycleStart || report.Type == CycleEnd || report.Type == WarriorTaskPush || report.Type == WarriorTerminate || (report.Type == WarriorRead && !r.recordReads) ==> recSameExcept(r, 0 - 1)
+//@   loop 1
+//@     invariant recInv(r) && i >= report.Address
